@@ -6,7 +6,7 @@
    * `slisting ns` = the listing of the relation graph `ns` (Core.Model) computed ONCE with max-plus starts and ends;
      `sduration ns` its duration; `seval env` evaluates one symbolic entry under a setting.
    * `mp_le a b` = decidable sufficient order (every member of a is dominated by a member of b, where "dominated" may use
-     R, M, F, S, W >= 0 and 2W + M >= R).
+     R, M, F, S, W >= 0, 2W + M >= R and 2W <= R).
    * `cert_no_overlap ns` = every channel-sharing pair of the symbolic listing is ordered by mp_le, or both provably have
      no length, or one provably has no length and neither is a Barrier; `cert_strict ns` = the same without the last case.
    * admissible setting: `env_nonneg env` (R, M, F, S >= 0) and `env_parity env` ((R - M) mod 2 = 0 in ticks of 1/8: true
